@@ -95,7 +95,11 @@ func cseqCall(name, api string, cache spec.ResolutionCache) (out string, loads, 
 		if !ok {
 			return nil, errors.New("no document " + u)
 		}
-		delivered = append(delivered, ascii(u))
+		// (a text that does not decode is no document: nothing can be kept of it)
+		var probe interface{}
+		if json.Unmarshal([]byte(d), &probe) == nil {
+			delivered = append(delivered, ascii(u))
+		}
 		return json.RawMessage(d), nil
 	}
 	var s spec.Schema
